@@ -1,6 +1,6 @@
 """Profiles `transform` (C13) and `rotate` (C12)."""
 from .core import Profile, load_known
-from .gen import Geo, draw_field_new, draw_mesh_spec, draw_region_spec, draw_reject, draw_rotate, draw_scale, draw_translate
+from .gen import Geo, draw_field_new, draw_mesh_spec, draw_region_spec, draw_reject, draw_rotate, draw_scale, draw_translate, draw_twin_spec
 from .geom import MeshM
 from .heap import HeapState
 from . import ops_geom  # noqa: F401  (registers ops)
@@ -146,6 +146,9 @@ class TransformProfile(HeapProfile):
                 spec, _ = draw_region_spec(rng, geo, ndim)
                 return dict(spec, op="Region.new", out=out)
             if what == "M" or not meshes:
+                if meshes and rng.random() < 0.3:
+                    st.stats.probe("twin_mesh")
+                    return dict(draw_twin_spec(rng, st.h[rng.choice(meshes)].box.v), op="Mesh.new", out=out)
                 spec = draw_mesh_spec(rng, geo, ndim, cfg["max_cells"], cfg["max_subs"])
                 return dict(spec, op="Mesh.new", out=out)
             ms = rng.choice(meshes) if rng.random() < cfg["p_share"] or len(meshes) == 1 else meshes[-1]
@@ -221,7 +224,14 @@ class TransformProfile(HeapProfile):
             return draw_scale(rng, geo, s, m, inplace, out)
         if h.kind == "M" and inplace and st.fields_on(h.box):
             inplace = False  # P3
+        last = st.extra.get("last_rot")
+        if h.kind == "F" and last is not None and last["on"] != s and rng.random() < 0.25:
+            # the very same request again, on another field (same or equal geometry, other subregions, moved mesh ...)
+            st.stats.probe("same_rotation_repeated")
+            return dict(last, on=s, out=out)
         o = draw_rotate(rng, geo, s, m, inplace, out)
+        if h.kind == "F":
+            st.extra["last_rot"] = dict(o, inplace=False)
         if h.kind == "F" and field_rot_refused(h.fm, m, o["ax1"], o["ax2"]):
             pairs = [(a, b) for a in reg.dims for b in reg.dims if a != b and not field_rot_refused(h.fm, m, a, b)]
             if not pairs:
